@@ -4,9 +4,11 @@
 (*   si         the SI entries of the equipment library as listed (the margin is the DEFAULT entry's)              *)
 (*   modes[k]   what was CONFIGURED for mode k (baud rate, bit rate, fits, required OSNR, reciprocal             *)
 (*              transmitter OSNR, penalty points as listed in the file) and the figures of mode k propagated ALONE on a fresh copy   *)
+(*              (po: the same under every OTHER equalization offset the library defines for the mode's baud rate)    *)
 (*              of the path with the implementation's own propagate(): pf (forward), pr (reverse)              *)
 (*   stf/str    CONFIGURATION of every add/drop stage crossed, forward / reverse: profiles of the ROADM type as   *)
-(*              listed, profile id selected for the degrees (NONE: none), default (FeasibilityOps.StageInv)    *)
+(*              listed - each with its frequency ranges as listed, possibly overlapping -, profile id selected  *)
+(*              for the degrees (NONE: none), default (FeasibilityOps.StageInv); freq: the carriers' frequencies, MHz *)
 (*   ev         every recomputation of receiver figures, in order: the pristine ones (kind 0, a reference      *)
 (*              [mode, dir] to pf / pr) and the ones the request itself went through (kind 1: update_snr +     *)
 (*              calc_penalties observed on the receiver, nup = how many times this receiver object had been    *)
@@ -40,6 +42,11 @@ TxAt(tr, m, c) == IF c > Len(tr.txc) THEN m.tx ELSE tr.txc[c]
 EventAt(tr, k) == LET e == tr.ev[k] IN IF e.kind = 0 THEN Pristine(tr, e.mode, e.dir) ELSE e
 
 SameFigure(a, b, tol) == IF a >= Inf \/ b >= Inf THEN a >= Inf /\ b >= Inf ELSE Within(a, b, tol)
+SameFigures(e, q) == Len(q.rxdb) = Len(e.rxdb) /\ \A c \in 1..Len(e.rxdb) : /\ SameFigure(e.rxdb[c], q.rxdb[c], TolHist)
+                                                                           /\ SameFigure(e.tot[c], q.tot[c], TolHist)
+\* the pristine figures of mode k (forward) under the OTHER equalization offsets the library defines for its baud rate
+\* (FeasibilityOps.UnderOffsets); the figures a request sees for a mode are pristine ones under one of these offsets
+OtherOffsets(tr, k, dir) == IF dir = 0 THEN {tr.modes[k].po[j] : j \in 1..Len(tr.modes[k].po)} ELSE {}
 
 EvalClauses(tr, e) ==
   LET m == tr.modes[e.mode]
@@ -49,19 +56,17 @@ EvalClauses(tr, e) ==
       tpdl == TableOf(m.pdl)
       st   == StagesOf(tr, e)
   IN  (IF \A j \in 1..Len(st) : StageOK(st[j]) THEN {} ELSE {"StageWellFormed"}) \cup
-      (IF Len(tr.txc) = 0 \/ Len(tr.txc) = Len(e.rx) THEN {} ELSE {"SpectrumCarriers"}) \cup
+      (IF (Len(tr.txc) = 0 \/ Len(tr.txc) = Len(e.rx)) /\ Len(e.freq) = Len(e.rx) THEN {} ELSE {"SpectrumCarriers"}) \cup
       (IF PointsOK(m.cd) /\ PointsOK(m.pmd) /\ PointsOK(m.pdl) /\ TableOK(tcd) /\ TableOK(tpmd) /\ TableOK(tpdl)
        THEN {} ELSE {"TableWellFormed"})
-      \cup (IF \A c \in Chans(e) : CompositionOK(e.rx[c], e.line[c], TxAt(tr, m, c), AddsOf(st), TolInv)
+      \cup (IF \A c \in Chans(e) : CompositionOK(e.rx[c], e.line[c], TxAt(tr, m, c), AddsOf(st, e.freq[c]), TolInv)
             THEN {} ELSE {"CompositionLaw"})
       \cup (IF \A c \in Chans(e) : /\ PenaltyOK(tcd, e.cd[c], e.pcd[c], TolPen)
                                    /\ PenaltyOK(tpmd, e.pmd[c], e.ppmd[c], TolPen)
                                    /\ PenaltyOK(tpdl, e.pdl[c], e.ppdl[c], TolPen)
                                    /\ TotalOK(<<e.pcd[c], e.ppmd[c], e.ppdl[c]>>, e.tot[c], TolPen)
             THEN {} ELSE {"PenaltyLaw"})
-      \cup (IF e.kind = 1 /\ p.ran = 1 /\
-               ~(Len(p.rxdb) = Len(e.rxdb) /\ \A c \in Chans(e) : /\ SameFigure(e.rxdb[c], p.rxdb[c], TolHist)
-                                                                  /\ SameFigure(e.tot[c], p.tot[c], TolHist))
+      \cup (IF e.kind = 1 /\ p.ran = 1 /\ ~(\E q \in {p} \cup OtherOffsets(tr, e.mode, e.dir) : SameFigures(e, q))
             THEN {"HistoryIndependence"} ELSE {})
 
 \* the reverse result returned for the request must be the one of the request's own route, whatever the batch
@@ -80,7 +85,11 @@ ModeRec(tr, k, dir) ==
       p == Pristine(tr, k, dir)
   IN  [br |-> m.br, rate |-> m.rate, fits |-> m.fits = 1, thr |-> Threshold(m.osnr, tr.si),
        worst |-> IF p.ran = 1 THEN Worst(p.rxdb, p.tot) ELSE -Inf]
-Lib(tr) == [k \in 1..Len(tr.modes) |-> ModeRec(tr, k, 0)]
+\* automatic selection: a mode whose side of the threshold depends on which offset of its baud rate is applied is unjudged
+AltWorsts(tr, k) == {Worst(q.rxdb, q.tot) : q \in OtherOffsets(tr, k, 0)}
+Lib(tr) == [k \in 1..Len(tr.modes) |-> IF tr.auto = 1 THEN UnderOffsets(ModeRec(tr, k, 0), AltWorsts(tr, k))
+                                                       ELSE ModeRec(tr, k, 0)]
+OffsetDependent(tr) == {k \in 1..Len(tr.modes) : ~OffsetRobust(ModeRec(tr, k, 0), AltWorsts(tr, k))}
 
 ReverseClauses(tr, k) ==     \* an accepted bidirectional request: the reverse direction must not be infeasible
   FixedClauses(ModeRec(tr, k, 0), ModeRec(tr, k, 1), TRUE, NoBlock) \cap {"ReverseDirectionCounts", "InfPenaltyBlocks"}
@@ -112,5 +121,5 @@ Next == /\ i <= Len(T[tid].ev)
                                                                        ELSE VerdictClauses(T[tid])}
 
 \* verdict line: one per trace, printed when the verdict step has been taken
-Done == i <= Len(T[tid].ev) \/ PrintT("@@" \o ToJson([name |-> T[tid].name, n |-> i, viol |-> viol]))
+Done == i <= Len(T[tid].ev) \/ PrintT("@@" \o ToJson([name |-> T[tid].name, n |-> i, viol |-> viol, offdep |-> OffsetDependent(T[tid])]))
 ==============================================================================
